@@ -169,7 +169,11 @@ def engine_case(fn, items, dmax, origin):
             fmt += "%" + it.spec; args.append("%s:%s" % (it.ty, it.val))
             seg, n = "f%d" % (1 if follows else 0), None
         else:
-            fmt += "%" + ("-" if it.left else "") + (str(it.width) if it.width else "") + "ls"
+            prec = getattr(it, "prec", 0)
+            star = getattr(it, "star", False)
+            fmt += "%" + ("-" if it.left and not star else "") + ("*" if star else str(it.width) if it.width else "") + (".%d" % prec if prec else "") + "ls"
+            if star:
+                args.append("i:%d" % (-it.width if it.left else it.width))
             args.append("p:n" if it.w is None else "w:" + whex(it.w))
             seg, n = "l", None
         if stopped or entry:
@@ -194,8 +198,9 @@ def engine_case(fn, items, dmax, origin):
         else:
             if it.w is None:
                 segs.append("ln"); stopped = True; continue
-            l = len(it.w)
-            if l == 0 or any(c >= 0x80 for c in it.w):
+            weff = it.w[:prec] if prec else it.w        # wcsnlen_s(lp, precision): only the first `precision` characters are converted
+            l = len(weff)
+            if l == 0 or any(c >= 0x80 for c in weff):
                 segs.append("lc"); stopped = True; conv_code = 406 if l == 0 else 84; continue
             if cap is not None and l + idx > cap:
                 segs.append("lt"); stopped = True; continue
@@ -229,13 +234,13 @@ def gen_engine(rng, tier):
     fns = list(ENGINE_FNS)
 
     def add(items, dmaxs, origin, only=None):
-        if len([i for i in items if i.kind in ("int", "str", "ls", "fl")]) > 3:
+        if sum((2 if getattr(i, "star", False) else 1) for i in items if i.kind in ("int", "str", "ls", "fl")) > 3:
             return
         for fn in (only or fns):
             for d in ([0] if ENGINE_FNS[fn] == "stream" else dmaxs):
                 out.append(engine_case(fn, items, d, origin))
     lit = lambda t: It("lit", text=t)
-    ls = lambda w, left=False, width=0: It("ls", w=None if w is None else [ord(c) for c in w], left=left, width=width)
+    ls = lambda w, left=False, width=0, prec=0, star=False: It("ls", w=None if w is None else [ord(c) for c in w], left=left, width=width, prec=prec, star=star)
     # %ls: every exit
     add([ls("hello")], [64, 6, 5, 3, 1], "ls")
     add([lit("ab"), ls("hello"), lit("yz")], [64, 10, 9, 8, 7, 6, 3, 2], "ls")
@@ -247,6 +252,12 @@ def gen_engine(rng, tier):
     for width in (8, 3):
         for left in (False, True):
             add([lit("ab"), ls("hello", left, width), lit("z")], [64, 12, 11, 10, 9, 8, 7, 6, 4], "ls-pad")
+    for prec in (1, 3, 5, 9):
+        add([lit("p="), ls("hello", prec=prec), lit(";")], [64, 8, 6, 5, 3], "ls-precision")
+        add([ls("hé", prec=prec)], [64], "ls-precision")
+    add([ls("héllo", prec=1, width=4)], [64, 4, 3], "ls-precision")
+    for width, left in ((8, False), (8, True), (2, False)):
+        add([lit("s"), ls("hello", left, width, star=True), lit("e")], [64, 10, 9, 7, 3], "ls-star")
     add([ls("a" * 300), lit("!")], [400, 301, 300, 299], "ls-long")
     add([ls("a" * 1000)], [2000, 1000], "ls-long")
     add([ls("one"), ls("two"), ls("three")], [64, 8, 6, 4], "ls-multi")
@@ -271,7 +282,7 @@ def gen_engine(rng, tier):
     add([lit("abc")], [3, 4, 2], "plain")
     add([ls("x")], [RSIZE_MAX_STR + 1], "entry")
     # random structures
-    for _ in range(600 if thorough else 60):
+    for _ in range(3000 if thorough else 60):
         items = []
         for _ in range(rng.randint(1, 5)):
             r = rng.random()
@@ -281,7 +292,8 @@ def gen_engine(rng, tier):
                 w = "".join(rng.choice("hello wrd") for _ in range(rng.choice([0, 1, 3, 8, 20, 70])))
                 if rng.random() < 0.15:
                     w += rng.choice("é中Ж")
-                items.append(ls(None if rng.random() < 0.05 else w, rng.random() < 0.4, rng.choice([0, 0, 4, 12, 30])))
+                items.append(ls(None if rng.random() < 0.05 else w, rng.random() < 0.4, rng.choice([0, 0, 4, 12, 30]), prec=rng.choice([0, 0, 0, 2, 7]),
+                                star=rng.random() < 0.15))
             elif r < 0.85:
                 spec, ty, val = rng.choice(FLOATS)
                 items.append(It("fl", spec=spec, ty=ty, val=rng.choice([val, "123456.789", "-0.001", "1e-5"])))
@@ -290,6 +302,9 @@ def gen_engine(rng, tier):
             else:
                 items.append(It("bad", text="%y", seg="pe"))
         nfl = sum(1 for i in items if i.kind == "fl")
+        items = [i for i in items if not (i.kind == "ls" and i.star and i.width == 0)]
+        if not items or sum((2 if getattr(i, "star", False) else 1) for i in items if i.kind in ("int", "str", "ls", "fl")) > 3:
+            continue
         exact = sum(len(i.text) if i.kind == "lit" else len(str(i.v)) if i.kind == "int" else max(len(i.w or ""), i.width) if i.kind == "ls" else 0 for i in items)
         roomy = exact + 64 * nfl + 2
         dm = [roomy + rng.randint(0, 40)]
@@ -345,7 +360,7 @@ def gen_wprobe(rng, tier):
         for d in (100, 600):
             out.append(wprobe_case(fn, d, "x=", "abc", [0xC3, 0x28], "ilseq"))
             out.append(wprobe_case(fn, d, "", "B" * 700, [0x41], "narrow-arg"))
-        for _ in range(300 if thorough else 30):
+        for _ in range(1500 if thorough else 30):
             d = rng.choice([rng.randint(1, 1024), rng.choice(dmaxs)])
             n = max(0, rng.choice([d - 1, d, d + 1, rng.randint(0, 1200), 511, 512, 1023, 1024]))
             pre = "".join(rng.choice("pq%") for _ in range(rng.randint(0, 3)))
@@ -378,7 +393,7 @@ def fold_case(fn, a, b, dmax, smax, fold, origin):
 def gen_fold(rng, tier):
     out = []
     thorough = tier != "quick"
-    pairs = [("Hello", "hELLO"), ("abc", "abd"), ("Zeta", "alpha"), ("a", "b"), ("x", "X"), ("The Quick", "the quick brown"), ("", "a"), ("a", "")]
+    pairs = [("file10", "File9"), ("a007", "A7"), ("x 12", "x 3"), ("Hello", "hELLO"), ("abc", "abd"), ("Zeta", "alpha"), ("a", "b"), ("x", "X"), ("The Quick", "the quick brown"), ("", "a"), ("a", "")]
     for a, b in pairs:
         for fn, fold in (("wcsicmp_s", 1), ("wcsnatcmp_s", 1), ("wcsnatcmp_s", 0)):
             if fn == "wcsnatcmp_s" and not fold and a.lower() == b.lower():
@@ -400,7 +415,7 @@ def gen_fold(rng, tier):
         long_a = "".join(rng.choice("AbCdEfG") for _ in range(400))
         out.append(fold_case(fn, long_a, long_a[:399] + "z", 401, 401, fold, "long"))
         out.append(fold_case(fn, long_a, "q" + long_a[1:], 512, 512, fold, "long"))
-        for _ in range(200 if thorough else 20):
+        for _ in range(1000 if thorough else 20):
             a = "".join(rng.choice("AaBbZz") for _ in range(rng.randint(1, 30)))
             b = "".join(rng.choice("AaBbZz") for _ in range(rng.randint(1, 30)))
             if a.lower() == b.lower() or a[0].lower() == b[0].lower() and fn == "wcsnatcmp_s":
@@ -485,11 +500,19 @@ def compose_case(cps, dmax, contig, origin):
 
 
 def norm_case(cps, dmax, mode, origin):
-    assert no_decomp(cps)
+    # decomposition step: every source character is replaced by its full canonical decomposition (no reordering yet);
+    # each needs 5 cells of room in front of it (_decomp_s)
+    parts = [[ord(c) for c in unicodedata.normalize("NFD", chr(cp))] for cp in cps]
+    assert not any(0xAC00 <= c <= 0xD7A3 for c in cps)
+    dec, written = dmax < 5 or dmax > RSIZE_MAX_WSTR, 0
+    for part in parts:
+        if dmax - written < 5:
+            dec = True
+        written += len(part)
+    cps_src, cps = cps, [c for part in parts for c in part]
     n = len(cps)
-    dec = dmax < 5 or dmax > RSIZE_MAX_WSTR or (n >= 1 and dmax < n + 4)     # every cell needs 5 cells of room in front of it (_decomp_s)
     ordered = nfd_order(cps)
-    h = "fn=wcsnorm_s dmax=%d mode=%d src=%s" % (dmax, MODES[mode], whex(cps))
+    h = "fn=wcsnorm_s dmax=%d mode=%d src=%s" % (dmax, MODES[mode], whex(cps_src))
     m = "alloc=norm dec=%d mode=%s dmax=%d len=%d rcells=%s ccells=%s" % (dec, mode, dmax, n, mark_cells(cps), compose_features(ordered, mode == "fcc"))
     return Case("wcsnorm_s", h, m, True, "wcsnorm_s(dmax=%d, %s, %s)" % (dmax, runs_desc(cps), mode), "norm", origin)
 
@@ -555,6 +578,14 @@ def gen_norm(rng, tier):
             out.append(compose_case(cps, d, 0, "composing"))
             for mode in ("nfc", "nfd"):
                 out.append(norm_case(cps, max(5, d + 3), mode, "composing"))
+    # texts that decompose (length changes in the decomposition step): precomposed Latin letters with one to three marks
+    for cps in ([0xE9] * 5, [0x1D6, 0x1E69, 0xC5], [0xE9] * 70, [0x1D6] * 45, [0x31] + [0x1E69] * 6 + [0x316] * 9, [0x1D6] * 4 + [0x301] * 9,
+                [0x61] + [0xE9] * 41 + [0x1D6] * 14):
+        nd = sum(len(unicodedata.normalize("NFD", chr(c))) for c in cps)
+        for mode in ("nfc", "nfd", "fcc"):
+            for d in sorted({nd + 4, nd + 9, nd + 1, len(cps) + 4}):
+                if 5 <= d <= RSIZE_MAX_WSTR:
+                    out.append(norm_case(cps, d, mode, "decomposing"))
     # scratch buffer of wcsnorm_s: len + 2 >= 128, and its error exit (len + 2 > RSIZE_MAX_WSTR)
     for n in (124, 125, 126, 127, 140, 300, 1021, 1022, 1023):
         for sh in ([-n], [-(n - 18), 17, -1], [-1, 12, -(n - 13)]):
@@ -568,7 +599,7 @@ def gen_norm(rng, tier):
     out.append(norm_case(build_text(rng, [-200]), 150, "nfc", "dec-nospace"))
     out.append(reorder_case(build_text(rng, [-3]), 1025, 3, "entry"))
     out.append(compose_case(build_text(rng, [-3]), 1025, 0, "entry"))
-    for _ in range(400 if thorough else 40):
+    for _ in range(3000 if thorough else 40):
         sh = []
         for _ in range(rng.randint(1, 5)):
             sh.append(-rng.randint(1, 3))
@@ -721,6 +752,9 @@ def plans_for(n, tier, rng):
         if tier == "quick" and len(pairs) > 4:
             pairs = rng.sample(pairs, 4)
         pl += [list(p) for p in pairs[:40]]
+    if n >= 3 and tier != "quick":
+        tr = [(a, b, c) for a in range(n) for b in range(a + 1, n) for c in range(b + 1, n)]
+        pl += [list(t) for t in (rng.sample(tr, 6) if len(tr) > 6 else tr)]
     return pl
 
 
@@ -760,7 +794,7 @@ def run(tier, seed, replay=None):
         if "h" not in rep:
             print(json.dumps(rep, indent=1)[:4000]); return 0
         slack = rep.get("slack", 1)
-        L = buildlib.build(slack=bool(slack))
+        L = buildlib.build(slack=bool(slack), opt=rep.get("opt", "-O0"))
         hbin = buildlib.build_harness(L, os.path.join(VERIF, "harness", "halloc.c"), os.path.join(L["dir"], "halloc"), extra=WRAPFLAGS)
         fl = ",".join(map(str, rep["fail"])) or "-"
         c, _, _ = proto.run_lines([hbin], ["id=0 fail=%s %s" % (fl, rep["h"])])
@@ -806,8 +840,9 @@ def run(tier, seed, replay=None):
     cases = kept
     reached, failed_at, fn_seen = {}, {}, set()
     site_examples = {}
-    for slack in (1, 0):
-        L = buildlib.build(slack=bool(slack))
+    configs = [(1, "-O0"), (0, "-O0")] + ([(1, "-O2")] if tier != "quick" else [])     # thorough: the tree once more at -O2
+    for slack, opt in configs:
+        L = buildlib.build(slack=bool(slack), opt=opt)
         hbin = buildlib.build_harness(L, os.path.join(VERIF, "harness", "halloc.c"), os.path.join(L["dir"], "halloc"), extra=WRAPFLAGS)
         # 2. implementation, fault-free
         c0 = run_parallel([hbin], ["id=%d fail=- %s" % (i, c.h) for i, c in enumerate(cases)])
@@ -838,13 +873,14 @@ def run(tier, seed, replay=None):
             fn_seen.add(c.fn)
             nreq = int(dc["n"])
             res.count("entry", c.fn)
-            res.count("family", "%s/slack=%d" % (c.fam, slack))
+            res.count("family", "%s/slack=%d%s" % (c.fam, slack, "" if opt == "-O0" else opt))
             res.count("origin", "%s/%s" % (c.fam, c.origin))
             res.count("requests-in-run", str(min(nreq, 6)) if nreq < 6 else "6+")
-            res.count("plan", "fault-free" if not pl else "single" if len(pl) == 1 else "all" if len(pl) > 2 else "pair")
+            res.count("plan", "fault-free" if not pl else "single" if len(pl) == 1 else "pair" if len(pl) == 2 else
+                      "every-request" if pl == list(range(len(pl))) and len(pl) > nreq else "triple")
             res.count("outcome", "crash" if dc["sig"] != "0" else "failed" if impl_failed(c, dc) else "ok")
             if nreq:
-                res.distinct.add((c.fn, c.h, tuple(pl), slack))
+                res.distinct.add((c.fn, c.h, tuple(pl), slack, opt))
             addrs = [] if dc["sites"] == "-" else dc["sites"].split(",")
             ev = [] if dc["seq"] == "-" else dc["seq"].split(",")
             for k, a in enumerate(addrs):
@@ -875,10 +911,10 @@ def run(tier, seed, replay=None):
                     hh["count"] += 1; hh["sigs"].add(sig)
                 else:
                     res.violations.append((sig, dict(kind="property-fails-on-implementation", property=PID, sig=sig, detail=detail, desc=c.desc, fn=c.fn,
-                                                     h=c.h, m=c.m, fail=pl, slack=slack, impl=dc, model=dm, model_predicts=agree, model_diff=diff)))
+                                                     h=c.h, m=c.m, fail=pl, slack=slack, opt=opt, impl=dc, model=dm, model_predicts=agree, model_diff=diff)))
             if diff is not None and not fails:
-                res.mismatch.append(dict(kind="correspondence", property=PID, fn=c.fn, what=diff, desc=c.desc, h=c.h, m=c.m, fail=pl, slack=slack, impl=dc, model=dm))
-        log("  C20 slack=%d: %d cases, %d (case, failing set) runs, %.1fs" % (slack, len(cases), len(jobs), time.time() - t0))
+                res.mismatch.append(dict(kind="correspondence", property=PID, fn=c.fn, what=diff + ("" if opt == "-O0" else " [build %s]" % opt), desc=c.desc, h=c.h, m=c.m, fail=pl, slack=slack, opt=opt, impl=dc, model=dm))
+        log("  C20 slack=%d %s: %d cases, %d (case, failing set) runs, %.1fs" % (slack, opt, len(cases), len(jobs), time.time() - t0))
     # every inventory site must have been reached, and failed, in this run
     for key in sorted(inv_sites):
         if key in SITES and not reached.get(key):
@@ -888,7 +924,7 @@ def run(tier, seed, replay=None):
     for x in res.mismatch[:12]:
         log("   mismatch:", x.get("fn"), x.get("what"), "|", x.get("desc", ""), "fail=%s" % x.get("fail"), "| impl", x.get("impl") and {k: v for k, v in x["impl"].items() if k in ("sig", "ret", "hn", "d0", "dall", "out", "seq")},
             "| model", x.get("model") and {k: v for k, v in x["model"].items() if k != "id"})
-    res.extra["site_coverage"] = {label(k): dict(file=k[0], line=inv_sites[k][1], call=inv_sites[k][0], reached=reached.get(k, 0), failed=failed_at.get(k, 0),
+    res.extra["site_coverage"] = {"%s (%s #%d)" % (label(k), k[0], k[1]): dict(file=k[0], line=inv_sites[k][1], call=inv_sites[k][0], reached=reached.get(k, 0), failed=failed_at.get(k, 0),
                                                   example=site_examples.get(k)) for k in sorted(inv_sites)}
     res.extra["entry_points_driven"] = sorted(fn_seen)
     res.extra["inputs_dropped_for_dmax_wraparound"] = dropped
